@@ -411,6 +411,11 @@ func buildVariants(c ReprCase, known map[string]bool) ([]variant, bool) {
 		os.WriteFile(fj, js, 0644)
 		_, sp, err = sio.ResolveSpecSource(context.Background(), &crew.SpecSource{URL: "file://" + fj})
 		vs = append(vs, variant{name: "sio-file-json", spec: sp, err: err})
+		// JSON text may be preceded by white space (a blank first line)
+		fj2 := filepath.Join(dir, "c13spec-blank-first-line.json")
+		os.WriteFile(fj2, append([]byte("\n  "), js...), 0644)
+		_, sp, err = sio.ResolveSpecSource(context.Background(), &crew.SpecSource{URL: "file://" + fj2})
+		vs = append(vs, variant{name: "sio-file-json-after-a-blank-line", spec: sp, err: err})
 		if yerr == nil {
 			os.WriteFile(fy, ys, 0644)
 			_, sp, err = sio.ResolveSpecSource(context.Background(), &crew.SpecSource{URL: "file://" + fy})
